@@ -10,7 +10,7 @@ ASSUMPTIONS = ["which items a raising flush leaves unset depends on batch compos
 
 
 def strategy(tier):
-    return gen.programs(gen.Cfg(max_tasks=12 if tier == "quick" else 40, sync=True, ctx=("rec",), dag=True, shared_lazy=1, tools=("dd", "alru", "agen", "amap", "asorted", "amin", "amax", "afilter", "retry", "cwc"), ok_w=5, fault_leaf_w=2, catch_p=2,
+    return gen.programs(gen.Cfg(max_tasks=12 if tier == "quick" else 40, sync=True, ctx=("rec",), dag=True, shared_lazy=1, premade=True, tools=("dd", "alru", "agen", "amap", "asorted", "amin", "amax", "afilter", "retry", "cwc"), ok_w=5, fault_leaf_w=2, catch_p=2,
                                 flush_faults=("raise", "raise_base"), cancels=True, reyield=True, convs=("call", "value", "wrapper"),
                                 shapes=("chain", "tree", "comb", "diamond", "reentry", "free", "free", "free")))
 
